@@ -89,6 +89,18 @@ pub fn jobs(ctx: &Ctx) -> Vec<Job> {
         let len = 1 + (mix(ctx.seed ^ 0xc1ea, k as u64) as usize) % caps.cap(v, level, class).max(1);
         jobs.push(Job { fam: FAMS[4], class, mode: Some(class), level: Some(level), version: Some(v), mask: None, len, gen: 0, seed: mix(ctx.seed, k as u64), ..Default::default() });
     }
+    // payloads that BEGIN with something meaningful (byte order marks, URL schemes, escapes, magic numbers: the
+    // dictionary of job.rs), in their own class's mode, in Byte mode and in automatic mode: the reported mode is the one
+    // the first mode indicator of the symbol carries, whatever the content looks like
+    for (class, payload) in crate::job::prefix_sweep(ctx.seed) {
+        for (i, mode) in [None, Some(class), Some(2)].into_iter().enumerate() {
+            if i == 2 && class == 2 {
+                continue;
+            }
+            k += 1;
+            jobs.push(Job { fam: FAMS[0], class, mode, level: if k % 3 == 0 { None } else { Some(k % 4) }, version: None, mask: if k % 2 == 0 { None } else { Some(k % 8) }, len: payload.len(), payload: Some(payload.clone()), seed: mix(ctx.seed, k as u64), ..Default::default() });
+        }
+    }
     // a forced mode whose alphabet does NOT contain the input: the crate documents an assertion failure there and no
     // symbol is demanded; but IF a QR code is returned, what it reports must still be what it physically encodes and
     // what the caller forced ("the ... mode ... reported on the returned QR code")
@@ -394,7 +406,7 @@ pub fn run(ctx: &Ctx) -> Report {
     let st = pool::run(&jobs, ctx.remaining(), |st, job, _| observe(ctx, st, job));
     let mut rep = Report::new(
         st,
-        "jobs = every (version, level, mask) cell (1280, enumerated completely) with the 16 forced/automatic option combinations rotating (level only left automatic in Q cells), + builds with nothing forced per (version, class) + feedback-directed searches for unusually clean symbols (payload hill-climbed towards the lowest ranking score the crate reports, versions 1-3, automatic mask; every improvement checked) + option walks (one payload built 4-8 times in a row on one thread while one option at a time is forced, released or changed) + builds with no level given and more data than level Q holds in version 40 (any symbol returned there is not level Q) + forced Numeric/Alphanumeric mode on inputs outside the alphabet (nothing has to come back, but a QR code that does must report the mode its mode indicator carries and the one that was forced); both 15-bit format copies are read at the ISO positions and must equal BCH(15,5)(level,mask)^0x5412 computed by polynomial division, both 18-bit version blocks must equal BCH(18,6)(version), and version/level/mask/mode/size fields must equal what the symbol physically encodes (mode from the decoded mode indicator), what was forced, and level Q by default; distinct key = (options, len, payload hash); every case non-trivial",
+        "jobs = every (version, level, mask) cell (1280, enumerated completely) with the 16 forced/automatic option combinations rotating (level only left automatic in Q cells), + builds with nothing forced per (version, class) + feedback-directed searches for unusually clean symbols (payload hill-climbed towards the lowest ranking score the crate reports, versions 1-3, automatic mask; every improvement checked) + option walks (one payload built 4-8 times in a row on one thread while one option at a time is forced, released or changed) + builds with no level given and more data than level Q holds in version 40 (any symbol returned there is not level Q) + every dictionary prefix (byte order marks, URL schemes, escapes, magic numbers) alone and with tails, in automatic mode, its own mode and Byte mode + forced Numeric/Alphanumeric mode on inputs outside the alphabet (nothing has to come back, but a QR code that does must report the mode its mode indicator carries and the one that was forced); both 15-bit format copies are read at the ISO positions and must equal BCH(15,5)(level,mask)^0x5412 computed by polynomial division, both 18-bit version blocks must equal BCH(18,6)(version), and version/level/mask/mode/size fields must equal what the symbol physically encodes (mode from the decoded mode indicator), what was forced, and level Q by default; distinct key = (options, len, payload hash); every case non-trivial",
     );
     rep.exhaustive = Some(true);
     rep.expected_sets = vec![("version_level_mask", 1280), ("level_mask_words", 32), ("version_words", 34), ("forced_option_combos", 16)];
